@@ -11,7 +11,8 @@ RULE = ("random histories (5-40 operations) over the 24 listed AnnealResults ope
         "empty or not, values drawn from 6 numbers so duplicates are frequent; every operation is "
         "mirrored on a plain-list shadow. A history is non-trivial when it contains >= 3 distinct "
         "operation kinds and the collection was non-empty at some point; distinct = digest of the "
-        "operation sequence with operands")
+        "operation sequence with operands"
+        ' Also: element reads with int / numpy integer / __index__ / bool indices, operations a list rejects (same exception type, collection and best untouched), slice assignment (plain and extended) from generators / iterators / maps, predicates with memory, value pools with +-inf and huge magnitudes, continuation on derived collections, equal-but-distinct elements, sort(key=...).')
 TIERS = {"quick": {"shards": 4, "cases": 10000}, "thorough": {"shards": 16, "cases": 40000}}
 FLOOR_BASE = {"quick": 900, "thorough": 20000}    # case counts the floors below were calibrated for; the launcher scales them
 OPS = ["getitem", "rejected", "construct", "append", "add_state", "insert", "remove", "pop", "extend", "add", "iadd",
